@@ -56,6 +56,8 @@ pub fn short_file(f: &str) -> String {
 
 thread_local! {
   static LAST: RefCell<Option<PanicRec>> = const { RefCell::new(None) };
+  /// nesting depth of `catch` on this thread: a panic outside any `catch` is a harness failure and is printed
+  static DEPTH: std::cell::Cell<u32> = const { std::cell::Cell::new(0) };
 }
 static INIT: Once = Once::new();
 
@@ -73,6 +75,9 @@ pub fn install() {
         .location()
         .map(|l| (l.file().to_string(), l.line()))
         .unwrap_or_else(|| ("<unknown>".into(), 0));
+      if DEPTH.with(|d| d.get()) == 0 {
+        eprintln!("harness panic outside catch: {} at {}:{}", msg, file, line);
+      }
       LAST.with(|l| *l.borrow_mut() = Some(PanicRec { msg, file, line }));
     }));
   });
@@ -82,7 +87,10 @@ pub fn install() {
 pub fn catch<T>(f: impl FnOnce() -> T) -> Result<T, PanicRec> {
   install();
   LAST.with(|l| *l.borrow_mut() = None);
-  match catch_unwind(AssertUnwindSafe(f)) {
+  DEPTH.with(|d| d.set(d.get() + 1));
+  let r = catch_unwind(AssertUnwindSafe(f));
+  DEPTH.with(|d| d.set(d.get().saturating_sub(1)));
+  match r {
     Ok(v) => Ok(v),
     Err(_) => Err(LAST.with(|l| l.borrow_mut().take()).unwrap_or(PanicRec {
       msg: "<panic without hook record>".into(),
